@@ -17,6 +17,10 @@ reference tables), which are folded.
   with a per-character predicate of CPython (`value.isascii()`, `.isprintable()`, `.isalnum()` ...) or `<constant> in value` is a data
   fork whose outcome is kept as a fact of the path; a path on which the value skips the escaper (a "fast path" for plain text) is judged by
   these facts in the abstract domain "ASCII byte values every byte of the value may take": they must exclude the backslash byte.
+  A test of the SHAPE of the text - its length, its first / last character (`len(v) >= 2`, `v[0] == '"'`, `v[-1]`, `v[:1]`, `v.startswith(c)`,
+  `v[0] == v[-1]`) on the str argument or on the escaped text of the bytes argument - is a data fork as well; a path it selects that returns the
+  text WITHOUT the delimiters (in-band sniffing: "looks quoted already") is violated when a witness composed of the constants these tests
+  name satisfies all facts of the path (for escaped text: only characters the escaper emits as plain tokens), otherwise undecided.
 * decoder: the body of the decoding loop is walked ONCE, with the characters the iterator delivers symbolic.  The only
   thing learnt about a character is the outcome of the comparisons the decoder itself makes with its own literals
   (`c == "x"`, `c in "nrt"`, `c in TABLE`, `TABLE.get(c)`, `TABLE[c]`, `match c: case "n"`, `ord(c) == 0x6E`): such a
@@ -33,6 +37,11 @@ reference tables), which are folded.
   and a comparison of two such linear terms is normalised to "CUR0 + A <= LEN" - an availability check for a definite number A of
   characters (lemma L14), recorded as the same event a has_next() call gives.  `==` / `!=` on the cursor are not modelled (undecided).
   The hex digits of an escape that are looked up in a constant table of the module (`TABLE[pair]`, `TABLE.get(pair)`,
+  A `next(n)` made WITHOUT an availability check before it (act-then-validate) is a "tentative" read: StringIterator.next is read off
+  its syntax tree as the slice `<buffer>[<cursor> : <cursor> + n]` taken before the cursor moves, so what it delivers is simply shorter
+  when fewer characters are left (lemma L15) and a test of its length (`len(digits) < n`, `!= n`, `== n`, `if not digits`, also on the
+  joined text) is the availability check made after the fact - recorded as the same `check` event at the offset of the read.  The read
+  counts as covered when that test is the next thing the path does with the iterator / the output and covers everything that was read.
   `pair in TABLE`, `DIGITS.index(digit)`) are judged by folding the table (a comprehension over constants is a constant)
   and comparing it completely with the reference table of hex spellings: both cases of a-f, unless the code normalised
   the case of the digits first.  Missing spellings fork the path into found / not found; a complete, correct table IS the
@@ -42,7 +51,9 @@ reference tables), which are folded.
   argument is a STRING token"; the text of the literal is a symbolic term and slices / whole-text replacements / conversions
   build terms over it as in the encoder analysis; `<constant> in <text>` tests fork the path and are kept as facts.  What is
   handed to the iterator and what is returned without reaching the loop is judged against the token structure of a literal
-  (lemma L8) - never by decoding sample literals.
+  (lemma L8) - never by decoding sample literals.  The truth value of (a slice of) the text / `== ""` is a data fork too (the literal `""` is a
+  STRING token).  A value returned before the loop must be a bytes object: a str-typed term over the text (or a str constant) returned on
+  a path whose facts admit a literal (witnesses: the empty content, the escape pairs of tables.ESCAPES, the constants of the facts) is violated.
 * STRING terminal: the regular expression is parsed (`re._parser`) and its syntax tree inspected; "the body matches every
   character" is decided on the tree by an interval cover of the code point range / a complementary category pair, never
   by matching sample strings.
@@ -81,6 +92,10 @@ R1 (encoder)  1 (AST, inlined helpers), 2 (paths pruned by the named assumption 
               L2b a backslash is always the first character of a token and the backslash byte is two backslashes: if X is
               a plain token, the bytes (0x5c, X) give backslash backslash X and str.replace(backslash + X, R) matches at the
               second backslash - the first one then pairs with R[0]; if X is always escaped, every match is that pair;
+              2 + 4 (shape tests - length / first / last character of the text - fork the path and are kept as facts; a path that returns
+              the text without its delimiters under such facts is judged with a witness built from the constants the facts name, every
+              fact evaluated on that constant; for the escaped text of bytes the abstract `_Escaper` says a plain token stands for the byte
+              with the same code, so the witness is its own escaped text; no witness found => undecided).
               L13 (reference table) `s.<pred>()` for isascii / isprintable / isalnum / isalpha / isdigit / isdecimal / isnumeric holds iff
               every character of s satisfies the predicate (and s is not empty, except isascii / isprintable); the ASCII characters
               that do are 0x00-0x7f / 0x20-0x7e / 0-9A-Za-z / A-Za-z / 0-9; bytes.<pred> knows ASCII only.  The backslash 0x5c is
@@ -114,6 +129,10 @@ R2 (decoder)  1, 2 (has_next() / data-dependent tests fork the path; tests on un
               syntax tree of the StringIterator class), 3 + 4 (linear terms a * CUR0 + b * LEN + k over two symbols; lemma L14: for
               integers CUR0 + k < LEN <=> CUR0 + (k + 1) <= LEN, x >= y <=> not x < y, and CUR0 + A <= LEN is has_next(A - <consumed>)
               by the iterator's own definition; a list comprehension over a sequence without a filter has the length of the sequence).
+              Act-then-validate: 1 (StringIterator.next matched on its syntax tree: returns `<buffer>[<cursor> : <cursor> + n]`, evaluated
+              before the only cursor store `+= n`), 3 + 4 (the length of a tentative read is the term rdlen(p, n); lemma L15: for a slice
+              b[i:i+n], len == min(n, max(0, len(b) - i)), so for 1 <= k <= n: len >= k <=> i + k <= len(b) <=> has_next(k) before the read;
+              `rdlen op <constant>` is normalised to that availability event at the offset of the read, k <= 0 / k > n fold to constants).
 R3            5 (the escape letters CPython's repr(bytes) and the encoder can emit - a reference vocabulary - looked up
               in the case split of R2).
 R6 (private   1 (the accumulator is located by role: the receiver of the append / extend / += events of the decoding loop; its definitions
@@ -137,6 +156,8 @@ R5 (around    1, 2 (paths pruned by the named assumption "the argument is a STRI
               quote only matches its own token.  A path fact `S (not) in T` admits the content W iff S is (not) a substring of
               W (two constants).  A return that bypasses the loop without any rewriting is wrong unless the facts exclude every
               backslash pair of the reference table tables.ESCAPES.
+              Type of an early return: 3 (the term's Python type: str for the text / its slices / replacements, bytes after an encode), 2 (emptiness
+              of the text as a path fact), witnesses as above - "a value returned for a STRING token before the loop is bytes".
 R4 (STRING)   1, 6 (compiled grammar terminals; regex *syntax tree*), 4 (interval cover of 0..0x10FFFF for the body's
               character class).  Lemma: L6 a category and its negation (\\s|\\S, \\d|\\D, \\w|\\W) partition the characters;
               `.` is every character except code 10 unless DOTALL.  Unmodelled classes -> undecided.
@@ -1021,12 +1042,49 @@ class _Enc(_Interp):
             return v.typ in ("bytes", "str")
         return v.tag == "codec" and v.args[1] == "decode" and v.args[2] in _ASCII_COMPATIBLE and isinstance(v.args[0], _Sym) and v.args[0].tag == "param" and v.args[0].typ == "bytes"
 
+    shape_tests = True  # tests of the first / last character and of the length of the text are data forks kept as facts (`_Txt`: not modelled)
+
+    def shape_subject(self, v) -> bool:
+        """`v` is a str term over the argument (the str argument itself, or the text an escaper made of the bytes argument): a test of
+        its length or of its first / last character is a test on the DATA - an in-band look at what the value happens to contain."""
+        return self.shape_tests and isinstance(v, _Sym) and v.typ == "str" and v.tag in ("param", "slice", "repr", "codec", "rep", "fmt") and _mentions(v, self.param)
+
+    def shape_fact(self, what, holds_when_true=True):
+        holds = self.o.decide()
+        self.cfacts.append(("shape", what, holds))
+        return holds == holds_when_true
+
+    def _end_char(self, v):
+        """(term, 0 | -1) when `v` is the first / last character of a shape subject: v[0], v[-1], v[:1], v[-1:]."""
+        if isinstance(v, _Sym) and v.tag == "charat":
+            return v.args
+        if isinstance(v, _Sym) and v.tag == "slice" and self.shape_subject(v.args[0]):
+            if v.args[1:] in ((None, 1, None), (0, 1, None)):
+                return v.args[0], 0
+            if v.args[1:] == (-1, None, None):
+                return v.args[0], -1
+        return None
+
     def sym_compare(self, op, a, b):
         # `<constant> in <argument>`: a data fork (values with and without the substring both exist), kept as a fact of the path
         if isinstance(op, (ast.In, ast.NotIn)) and isinstance(a, (bytes, str)) and a and self.value_chars(b) and type(a).__name__ == b.typ:
             holds = self.o.decide()
             self.cfacts.append(("has", a, holds))
             return holds == isinstance(op, ast.In)
+        if self.shape_tests:
+            names = {ast.Lt: "<", ast.LtE: "<=", ast.Gt: ">", ast.GtE: ">=", ast.Eq: "==", ast.NotEq: "!="}
+            mirror = {"<": ">", ">": "<", "<=": ">=", ">=": "<=", "==": "==", "!=": "!="}
+            if type(op) in names:
+                for x, y, opn in ((a, b, names[type(op)]), (b, a, mirror[names[type(op)]])):
+                    if isinstance(x, _Sym) and x.tag == "len" and isinstance(y, int) and not isinstance(y, bool):
+                        return self.shape_fact(("len", x.args[0], opn, y))
+            if isinstance(op, (ast.Eq, ast.NotEq)):
+                ea, eb = self._end_char(a), self._end_char(b)
+                for x, y in ((ea, b), (eb, a)):
+                    if x is not None and isinstance(y, str) and len(y) == 1:
+                        return self.shape_fact(("char", x[0], x[1], y), isinstance(op, ast.Eq))
+                if ea is not None and eb is not None and ea[0] == eb[0]:
+                    return self.shape_fact(("same", ea[0], ea[1], eb[1]), isinstance(op, ast.Eq))
         return _Interp.sym_compare(self, op, a, b)
 
     def sym_binop(self, e, a, b):
@@ -1068,6 +1126,8 @@ class _Enc(_Interp):
     def sym_subscript(self, e, base, idx, is_slice):
         if isinstance(base, _Sym) and base.tag != "unk" and is_slice and _concrete(idx):
             return _Sym("slice", (base,) + tuple(idx), base.typ)
+        if not is_slice and idx in (0, -1) and not isinstance(idx, bool) and self.shape_subject(base):
+            return _Sym("charat", (base, idx), "str")  # the first / last character of the text (see `shape_subject`)
         if isinstance(base, _Sym) and base.tag != "unk":
             return _Sym("opaque", (src(e)[:60], base), None)
         return _NOHOOK
@@ -1122,6 +1182,8 @@ class _Enc(_Interp):
             if holds and (attr == "isascii" or recv.typ == "bytes"):
                 self.cfacts.append(("ascii", None, True))  # every byte of the argument is below 0x80 (bytes.<pred> knows ASCII only)
             return holds
+        if attr in ("startswith", "endswith") and len(args) == 1 and not kws and isinstance(args[0], str) and len(args[0]) == 1 and self.shape_subject(recv):
+            return self.shape_fact(("char", recv, 0 if attr == "startswith" else -1, args[0]))
         if isinstance(recv, _Sym) and recv.tag != "unk":
             if attr == "replace" and recv.typ == "str" and len(args) >= 2 and isinstance(args[0], str) and isinstance(args[1], str):
                 if len(args) == 2 and not kws:
@@ -1147,6 +1209,8 @@ class _Enc(_Interp):
         return _NOHOOK
 
     def sym_function(self, e, name, args, kws):
+        if name == "len" and len(args) == 1 and not kws and self.shape_subject(args[0]):
+            return _Sym("len", (args[0],), "int")
         if name in ("repr", "ascii") and len(args) == 1 and isinstance(args[0], _Sym) and args[0].tag != "unk":
             return _Sym("repr", (args[0],), "str")
         if name == "str" and len(args) == 1 and isinstance(args[0], _Sym) and args[0].tag != "unk" and not kws:
@@ -1376,6 +1440,15 @@ def _in_class(name, b) -> bool:
 
 
 def _admits_byte(cfacts, b):
+    """`_admits_byte0` for a path that may also carry facts about the shape of the text (its length, its first / last character): those
+    are not evaluated here, so a value that contains `b` is only known to be admitted when there are none."""
+    r = _admits_byte0(cfacts, b)
+    if r is True and any(k == "shape" for k, _x, _h in cfacts):
+        return None
+    return r
+
+
+def _admits_byte0(cfacts, b):
     """Do the facts of an encoder path admit an argument that contains the ASCII byte `b`?  True / False / None (not worked out).
 
     Facts: ("class", pred, holds) - outcome of a per-character predicate (lemma L13); ("has", S, holds) - outcome of `S in value`
@@ -1429,6 +1502,11 @@ def _show_facts(cfacts) -> str:
     out = []
     for k, x, h in cfacts:
         if k == "ascii":
+            continue
+        if k == "shape":
+            what = {0: "the first character", -1: "the last character"}
+            t = (f"len(text) {x[2]} {x[3]}" if x[0] == "len" else f"{what[x[2]]} of the text == {x[3]!r}" if x[0] == "char" else f"{what[x[2]]} of the text == {what[x[3]]}")
+            out.append(t if h else f"not ({t})")
             continue
         out.append((f"value.{x}()" if h else f"not value.{x}()") if k == "class" else f"{x!r} {'in' if h else 'not in'} value")
     return " and ".join(out) if out else "no condition"
@@ -1512,7 +1590,7 @@ def r1(ctx):
             esc_seen.append(f"the value itself where the path's conditions ({_show_facts(facts)}) exclude the backslash byte")
 
     for (kind, val), guessed, facts in pb:
-        core = _literal_body(kind, val, guessed, ret_bad, ret_und)
+        core = _literal_body(kind, val, guessed, ret_bad, ret_und, facts)
         if core is None:
             continue
         layers, x = _peel(core)
@@ -1605,7 +1683,7 @@ def r1(ctx):
 
     s_bad, s_und = [], []
     for (kind, val), guessed, facts in ps:
-        core = _literal_body(kind, val, guessed, ret_bad, ret_und)
+        core = _literal_body(kind, val, guessed, ret_bad, ret_und, facts)
         if core is None:
             continue
         layers, x = _peel(core)
@@ -1658,7 +1736,95 @@ def _splits_escaped_backslash(model, a, b, earlier):
     return True, why + ": the escaped backslash is split and the backslash byte is lost (the text no longer decodes to the value)"
 
 
-def _literal_body(kind, val, guessed, bad, und):
+def _term_escaper(term):
+    """What the characters of the str term `term` are, in terms of the argument: "raw" (the str argument itself), the `_Escaper` whose
+    output it is (repr() pinned and sliced consistently / the unicode_escape chain), or None (not one of these)."""
+    if isinstance(term, _Sym) and term.tag == "param" and term.typ == "str":
+        return "raw"
+    ns = _net_slice(term)
+    if ns is None:
+        return None
+    lo, hi, inner = ns
+    if isinstance(inner, _Sym) and inner.tag == "repr":
+        parts = _flatten(inner.args[0])
+        i = [k for k, p in enumerate(parts) if isinstance(p, _Sym) and p.tag == "param" and p.typ == "bytes"]
+        if len(i) == 1 and all(isinstance(p, bytes) for k, p in enumerate(parts) if k != i[0]) and len(parts) <= 3:
+            pre, post = b"".join(parts[: i[0]]), b"".join(parts[i[0] + 1:])
+            if b'"' in pre + post and (lo, hi) == (2 + _esc_len(pre), -1 - _esc_len(post)):
+                return _REPR_PINNED
+        return None
+    ce = _codec_escaper(inner)
+    if ce is not None and ce[0] == "ok" and (lo, hi) == (0, 0):
+        return _UNICODE_ESCAPE
+    return None
+
+
+def _shape_witness(cfacts):
+    """A value that satisfies every fact of an encoder path that tests the SHAPE of the text (its length, its first / last character):
+    the witness text, or None when none was found.  The witness is composed of the constants the facts themselves name (the characters the
+    code compares the ends of the text with, repeated up to the lengths it compares with) and every fact is evaluated on that constant;
+    for the escaped text of a bytes argument only characters the escaper emits as plain tokens are used (abstract `_Escaper`: such a
+    character stands for the byte with the same code, so the escaped text of the witness IS the witness).  Nothing of /repo is evaluated."""
+    shape = [(x, h) for k, x, h in cfacts if k == "shape"]
+    if not shape:
+        return None
+    term = shape[0][0][1]
+    if any(x[1] != term for x, _h in shape):
+        return None
+    model = _term_escaper(term)
+    if model is None:
+        return None
+    ends = {0: None, -1: None}
+    for x, h in shape:
+        if x[0] == "char" and h:
+            if ends[x[2]] not in (None, x[3]):
+                return None
+            ends[x[2]] = x[3]
+    for x, h in shape:
+        if x[0] == "same" and h:
+            a, b = ends[x[2]], ends[x[3]]
+            ends[x[2]], ends[x[3]] = a or b, b or a
+    filler = ends[0] or ends[-1]
+    consts = [c for c in (ends[0], ends[-1]) if c is not None]
+    if model != "raw" and any(not model.plain(c) for c in consts):
+        return None
+    lengths = sorted({0, 1, 2} | {x[3] + d for x, _h in shape if x[0] == "len" for d in (-1, 0, 1) if 0 <= x[3] + d <= 64})
+    ops = {"<": operator.lt, "<=": operator.le, ">": operator.gt, ">=": operator.ge, "==": operator.eq, "!=": operator.ne}
+    for n in lengths:
+        if n == 0:
+            w = ""
+        elif filler is None:
+            continue
+        else:
+            w = ((ends[0] or filler) + filler * (n - 2) + (ends[-1] or filler)) if n >= 2 else (ends[0] or filler)
+            if n == 1 and ends[0] is not None and ends[-1] is not None and ends[0] != ends[-1]:
+                continue
+        good = True
+        for k, x, h in cfacts:
+            if k == "shape" and x[0] == "len":
+                r = ops[x[2]](len(w), x[3])
+            elif k == "shape" and x[0] == "char":
+                r = bool(w) and w[x[2]] == x[3]
+            elif k == "shape":
+                r = bool(w) and w[x[2]] == w[x[3]]
+            elif k == "has":
+                r = (x.decode("latin-1") if isinstance(x, bytes) else x) in w
+            elif k == "class":
+                r = (bool(w) or x in ("isascii", "isprintable")) and all(_in_class(x, ord(c)) for c in w)
+            elif k == "ascii":
+                continue
+            else:
+                return None
+            if r != h:
+                good = False
+                break
+        if good and (w or not any(x[0] in ("char", "same") for x, _h in shape)):
+            # (an end character of an empty text cannot be tested at all - the subscript raises: not a witness for such a path)
+            return w
+    return None
+
+
+def _literal_body(kind, val, guessed, bad, und, facts=()):
     """The returned literal must be `"` + X + `"`: returns X (a term over the parameter) or None after recording why not."""
     if kind != "return":
         if kind == "raise":
@@ -1673,6 +1839,15 @@ def _literal_body(kind, val, guessed, bad, und):
         und.append(f"return value not understood: {_show(val)}")
     elif guessed:
         und.append(f"on a condition that is not understood the function returns {_show(val)}")
+    elif any(k == "shape" for k, _x, _h in facts):
+        # a path chosen by a look at the data itself (length / first / last character of the text): wrong as soon as some value takes it
+        w = _shape_witness(facts) if any(isinstance(p, _Sym) and p.tag != "unk" for p in parts) else None  # (a constant returned for a special shape: not judged)
+        if w is None:
+            und.append(f"when {_show_facts(facts)} the function returns {_show(val)}, not the escaped value between two double quotes; whether a value satisfies these conditions is not worked out")
+        else:
+            bad.append(f"return value is {_show(val)}, not the escaped value between exactly two double quotes, on the path taken when {_show_facts(facts)}: the value itself decides "
+                       f"(in-band) whether it is quoted and escaped - a value whose text is {w!r} satisfies these conditions and is written without its delimiters / escapes, so it does "
+                       f"not read back as the same bytes and can end the literal early")
     else:
         bad.append(f"return value is {_show(val)}, not the escaped value between exactly two double quotes")
     return None
@@ -1715,9 +1890,30 @@ class _Path:
         for i, e in enumerate(self.events):
             if e[0] == "check" and e[3]:
                 avail = max(avail, e[1] + e[2])
-            elif e[0] == "read" and e[1] + e[2] > avail and e[1] + e[2] > from_pos:
+            elif e[0] == "read" and e[1] + e[2] > avail and e[1] + e[2] > from_pos and not self.validated_after(i):
                 out.append((i, e[1], e[2]))
         return out
+
+    def validated_after(self, i) -> bool:
+        """The read at event `i` is a tentative one (a next(n) that by the iterator's own definition just delivers fewer characters when
+        fewer are left, lemma L15) and the NEXT thing the path does with the iterator or the output is a test of the length of what was
+        delivered (recorded as a `check` event at the offset of the read): act-then-validate.  Either the test establishes that all n
+        characters were there (the read is covered after the fact, before anything was appended or read on top of it), or it fails -
+        then this is the path of a literal that is too short, whose outcome (ValueError, nothing appended) is the business of the
+        escape's TABLE obligation."""
+        e = self.events[i]
+        if len(e) < 4 or e[3] != "tentative":
+            return False
+        for x in self.events[i + 1:]:
+            if x[0] == "check":
+                if x[3]:
+                    if x[1] <= e[1] and x[1] + x[2] >= e[1] + e[2]:
+                        return True
+                    continue  # only part of what was read is known to be there: a later test may still cover the rest
+                return x[1] + x[2] <= e[1] + e[2]
+            if x[0] in ("read", "append"):
+                return False
+        return False
 
 
 def _char(pos):
@@ -1823,7 +2019,61 @@ def _build_iter_model(ctx):
                             same_length = False
         # a method that hands `self.<buffer>` to a mutating call is not looked for: the walker's iterator protocol does not
         # model such a method either
-    return {"cursor": cursor, "buffer": buffer, "same_length": same_length}
+    return {"cursor": cursor, "buffer": buffer, "same_length": same_length, "next_slice": _next_is_slice(repo, cursor, buffer)}
+
+
+def _next_is_slice(repo, cursor, buffer) -> bool:
+    """next(n) is `<buffer>[<cursor> : <cursor> + n]` taken BEFORE the cursor is advanced by n (read off the method's syntax tree: a
+    straight-line body, the returned value is that slice - directly or through a single-assignment local -, the only store to the
+    cursor is `+= n` and comes after the statement that evaluates the slice).  Then, by the semantics of slicing (lemma L15),
+    len(it.next(n)) == min(n, max(0, len(buffer) - cursor)): for 1 <= k <= n, len(it.next(n)) >= k  <=>  cursor + k <= len(buffer)
+    <=>  has_next(k) held before the read - a length test of what was read IS the availability check, made after the fact."""
+    if not repo.has_func(_IT_CLS + ".next"):
+        return False
+    fn = repo.func(_IT_CLS + ".next").node
+    ps = params(fn)
+    if len(ps) != 2:
+        return False
+    me, count = ps
+    body = [st for st in fn.body if not isinstance(st, ast.Pass)]
+    if not body or not isinstance(body[-1], ast.Return) or body[-1].value is None:
+        return False
+    if any(not isinstance(st, (ast.Assign, ast.AnnAssign, ast.AugAssign)) for st in body[:-1]):
+        return False
+
+    def is_slice(e):
+        if not (isinstance(e, ast.Subscript) and _self_attr(e.value, me) == buffer and isinstance(e.slice, ast.Slice) and e.slice.step is None):
+            return False
+        lo, hi = e.slice.lower, e.slice.upper
+        if lo is None or hi is None or _self_attr(lo, me) != cursor or not (isinstance(hi, ast.BinOp) and isinstance(hi.op, ast.Add)):
+            return False
+        return any(_self_attr(x, me) == cursor and isinstance(y, ast.Name) and y.id == count for x, y in ((hi.left, hi.right), (hi.right, hi.left)))
+
+    stores = []  # positions of the statements that store to the cursor / rebind the count parameter
+    for i, st in enumerate(body[:-1]):
+        targets = st.targets if isinstance(st, ast.Assign) else [st.target]
+        for t in targets:
+            for n in ast.walk(t):
+                if _self_attr(n, me) == cursor:
+                    if not (isinstance(st, ast.AugAssign) and isinstance(st.op, ast.Add) and isinstance(st.value, ast.Name) and st.value.id == count and n is t):
+                        return False
+                    stores.append(i)
+                elif _self_attr(n, me) == buffer or (isinstance(n, ast.Name) and isinstance(n.ctx, ast.Store) and n.id in (me, count)):
+                    return False
+    if len(stores) != 1:
+        return False
+    ret = body[-1].value
+    if is_slice(ret):
+        return False  # evaluated after the cursor store
+    if isinstance(ret, ast.Name):
+        defs = [(i, st) for i, st in enumerate(body[:-1]) if any(isinstance(n, ast.Name) and n.id == ret.id and isinstance(n.ctx, ast.Store) for n in ast.walk(st))]
+        if len(defs) != 1:
+            return False
+        i, st = defs[0]
+        value = st.value if isinstance(st, (ast.Assign, ast.AnnAssign)) else None
+        single_target = (isinstance(st, ast.Assign) and len(st.targets) == 1 and isinstance(st.targets[0], ast.Name)) or (isinstance(st, ast.AnnAssign) and isinstance(st.target, ast.Name))
+        return bool(single_target and value is not None and is_slice(value) and i < stores[0])
+    return False
 
 
 class _Dec(_Interp):
@@ -1845,6 +2095,7 @@ class _Dec(_Interp):
         self.pos = 0
         self.avail = 0
         self.short = None
+        self.tentative = {}  # positions of a next(n) made without a covering availability check -> (offset, n), see `read`
         self.hexmemo = {}
         self.shared = shared  # per loop: facts that do not depend on the characters (names assigned in the loop, values defined before it)
         if "assigned" not in shared:
@@ -1967,6 +2218,15 @@ class _Dec(_Interp):
                 return bool(_CMPOPS[type(op)](a, b))
             except Exception:
                 return _Sym("unk", ("cmp",))
+        if any(isinstance(x, _Sym) and x.tag == "rdlen" for x in (a, b)):
+            # the length of what a tentative next(n) delivered compared with a constant: an availability check after the fact (lemma L15)
+            mirror = {ast.Lt: ast.Gt, ast.Gt: ast.Lt, ast.LtE: ast.GtE, ast.GtE: ast.LtE, ast.Eq: ast.Eq, ast.NotEq: ast.NotEq}
+            x, k, kind = (a, b, type(op)) if isinstance(a, _Sym) and a.tag == "rdlen" else (b, a, mirror.get(type(op)))
+            if kind is not None and isinstance(k, int) and not isinstance(k, bool):
+                r = self.length_test(kind(), x.args[0], x.args[1], k)
+                if r is not None:
+                    return r
+            return _Sym("unk", ("cmp",))
         if any(isinstance(x, _Sym) and x.tag == "lin" for x in (a, b)):
             la, lb = _lin(a), _lin(b)
             if la is not None and lb is not None:
@@ -1994,14 +2254,58 @@ class _Dec(_Interp):
     # ---------------------------------------------------------------- iterator protocol
     def read(self, n, single):
         p = self.pos
-        self.events.append(("read", p, n))
+        if not single and n >= 1 and p + n > self.avail and self.itm is not None and self.itm.get("next_slice"):
+            # next(n) without an availability check before it: by the iterator's own definition the result is a slice that is simply
+            # shorter when fewer characters are left (lemma L15) - a "tentative" read; a test of the length of what was read is the
+            # availability check made after the fact (act-then-validate), recorded as the same `check` event at the read's offset
+            self.events.append(("read", p, n, "tentative"))
+            self.tentative[tuple(range(p, p + n))] = (p, n)
+        else:
+            self.events.append(("read", p, n))
         self.pos += n
         if single and p <= 1:
             return _char(p)
         return _Sym("digits", (tuple(range(p, p + n)),), "str" if single else "list")
 
-    def check(self, n):
-        p = self.pos
+    def read_length(self, v):
+        """len(<what a next(n) returned>) (also of its "".join: one character per entry): the constant n for a read that was covered by
+        an availability check, the term rdlen(p, n) = min(n, <characters left at offset p>) for a tentative one; None: not such a value."""
+        if not (isinstance(v, _Sym) and v.tag == "digits" and self.itm is not None and self.itm.get("next_slice")):
+            return None
+        pos = tuple(v.args[0])
+        if pos in self.tentative:
+            p, n = self.tentative[pos]
+            return n if p + n <= self.avail else _Sym("rdlen", (p, n), "int")
+        if pos and pos == tuple(range(pos[0], pos[0] + len(pos))) and pos[-1] < self.avail and any(e[0] == "read" and (e[1], e[2]) == (pos[0], len(pos)) for e in self.events):
+            return len(pos)
+        return None
+
+    def length_at_least(self, p, n, k) -> bool:
+        """Outcome of `len(<tentative read of n characters at offset p>) >= k` (lemma L15): always true for k <= 0, never for k > n,
+        otherwise exactly "k characters were available at offset p" - an availability check event at the offset of the read."""
+        if k <= 0:
+            return True
+        if k > n:
+            return False
+        return self.check(k, at=p)
+
+    def length_test(self, op, p, n, k):
+        ge = self.length_at_least
+        if isinstance(op, ast.GtE):
+            return ge(p, n, k)
+        if isinstance(op, ast.Lt):
+            return not ge(p, n, k)
+        if isinstance(op, ast.Gt):
+            return ge(p, n, k + 1)
+        if isinstance(op, ast.LtE):
+            return not ge(p, n, k + 1)
+        if isinstance(op, (ast.Eq, ast.NotEq)):
+            r = ge(p, n, k) and not ge(p, n, k + 1)
+            return r == isinstance(op, ast.Eq)
+        return None
+
+    def check(self, n, at=None):
+        p = self.pos if at is None else at
         if p + n <= self.avail:
             out = True
         elif self.short is not None and p + n >= self.short:
@@ -2244,6 +2548,15 @@ class _Dec(_Interp):
             return self.o.decide()
         if v.tag == "char":
             return True  # a one-character string is not empty
+        if v.tag == "rdlen":
+            return self.length_at_least(v.args[0], v.args[1], 1)
+        if v.tag == "digits":
+            # `if digits:` / `if not digits:` - what a next(n) delivered is empty or not: a test of its length (lemma L15)
+            n = self.read_length(v)
+            if isinstance(n, _Sym):
+                return self.length_at_least(n.args[0], n.args[1], 1)
+            if isinstance(n, int):
+                return n > 0
         return None
 
     def _char_pos(self, v):
@@ -2317,6 +2630,10 @@ class _Dec(_Interp):
             # constructor keeps one entry per character (`_iter_model`)
             if (isinstance(args[0], _Sym) and args[0].tag == "itbuf") or (isinstance(args[0], _Sym) and args[0].tag == "unk" and self.is_ctor_arg(e.args[0])):
                 return _Sym("lin", (0, 1, 0), "int")
+        if name == "len" and len(args) == 1 and not kws:
+            r = self.read_length(args[0])  # the number of characters a next(n) delivered (lemma L15)
+            if r is not None:
+                return r
         if name == "bytes" and len(args) == 2 and not kws:  # bytes(<one character>, codec) == <one character>.encode(codec)
             r = self.encoded_char(args[0], [args[1]], {})
             if r is not None:
@@ -3182,6 +3499,8 @@ class _Txt(_Enc):
     ends at the first data-dependent loop (the decoding loop - analysed by `_Dec`) or at a `return`; a `for` over a constant
     table of the analysed code is its body once per entry (constant propagation of the table, not a loop over data)."""
 
+    shape_tests = False
+
     def __init__(self, ctx, f, oracle, loop=None):
         _Enc.__init__(self, ctx, f, oracle, "Token")
         self.loop = loop  # the decoding loop `_Decoder` analysed (None: not understood - the first data-dependent loop ends the walk)
@@ -3230,7 +3549,25 @@ class _Txt(_Enc):
             holds = self.o.decide()  # a data fork: literals with and without the substring both exist
             self.facts.append((b, a, holds))
             return holds == isinstance(op, ast.In)
+        if isinstance(op, (ast.Eq, ast.NotEq)):
+            for x, y in ((a, b), (b, a)):
+                if y == "" and isinstance(y, str) and isinstance(x, _Sym):
+                    nonempty = self.emptiness(x)  # `<text> == ""`: the same fork as its truth value
+                    if nonempty is not None:
+                        return (not nonempty) == isinstance(op, ast.Eq)
         return _Sym("unk", ("cmp",))
+
+    def emptiness(self, v):
+        """`v` is the text of the token or a constant slice of it: whether it is empty is a data fork (the literal `""` is a STRING token -
+        it is what the encoder emits for b'' - and so is every longer one), kept as the fact (term, _EMPTY, <is empty>)."""
+        if isinstance(v, _Sym) and v.typ == "str" and (v.tag == "text" or (_net_slice(v) is not None and isinstance(_net_slice(v)[2], _Sym) and _net_slice(v)[2].tag == "text")):
+            nonempty = self.o.decide()
+            self.facts.append((v, _EMPTY, not nonempty))
+            return nonempty
+        return None
+
+    def sym_truth(self, v):
+        return self.emptiness(v)
 
     def sym_comp(self, e, seq):
         if self.over_text(seq):
@@ -3351,9 +3688,12 @@ def _admits(facts, witness):
         subj = _text_subject(term, witness)
         if subj is None:
             return None
-        if (const in subj) != holds:
+        if ((subj == "") if const is _EMPTY else (const in subj)) != holds:
             return False
     return True
+
+
+_EMPTY = _Sym("empty")  # marker of the fact "<term over the text> is the empty string"
 
 
 def _judge_passes(passes, facts, loop_letters, via_loop):
@@ -3446,15 +3786,17 @@ def r5(ctx):
     d = _decoder(ctx)
     f = d.f
     t_sink, t_exit = "whole-text rewriting before the decoding loop", "STRING tokens are decoded by the loop on every path"
+    t_type = "a value returned for a STRING token before the loop is bytes"
     try:
         paths = _text_paths(ctx, f, d.loop if d.error is None else None)
     except _Unsupported as e:
-        for text, kind in ((t_sink, "ESC"), (t_exit, "EXIT")):
+        for text, kind in ((t_sink, "ESC"), (t_exit, "EXIT"), (t_type, "API")):
             ctx.undecided("R5", kind, f, text, f"string_token_to_bytes is not understood by the path-wise value-flow analysis ({e})")
         return
     letters = set(d.letters()) if d.error is None else {k for k in tables.ESCAPES}
     s_bad, s_und, s_seen = [], [], 0
     e_bad, e_und, e_seen = [], [], 0
+    t_bad, t_und, t_seen = [], [], 0
     loops = 0
     for kind, val, guessed, facts, sinks in paths:
         for sink in sinks:
@@ -3483,6 +3825,24 @@ def r5(ctx):
                 e_und.append("on a condition that is not understood a STRING token is returned as it is")
             continue
         e_seen += 1
+        # ---- whatever is returned for a STRING token is a bytes object (the property compares it with the encoded bytes: '' != b'')
+        vt = val.typ if isinstance(val, _Sym) else type(val).__name__
+        if vt == "bytes":
+            t_seen += 1
+        elif vt == "str":
+            wits = [""] + [("\\" + k) for k, byte in tables.ESCAPES.items() if byte is not None] + [c for _t, c, h in facts if isinstance(c, str) and h]
+            adm = [_admits(facts, w) for w in wits]
+            shown = "the empty content" if True in adm and wits[adm.index(True)] == "" else f"the content {wits[adm.index(True)]!r}" if True in adm else ""
+            msg = (f"a path that returns before the decoding loop returns {_show(val)[:60]} - characters of the token's text, a str - where the decoded value must be a bytes object "
+                   f"(a str never equals the bytes that were encoded: '' != b'')")
+            if guessed:
+                t_und.append(msg + "; the path is taken on a condition that is not understood")
+            elif True in adm:
+                t_bad.append(msg + f"; the conditions of the path admit a STRING token (e.g. {shown})")
+            else:
+                t_und.append(msg + "; whether a valid literal satisfies the conditions of the path is not worked out")
+        else:
+            t_und.append(f"a path that returns before the decoding loop returns {_show(val)[:60]}, whose type is not known")
         passes, core = _peel_text(val)
         ns = _net_slice(core)
         if ns is None or not (isinstance(ns[2], _Sym) and ns[2].tag == "text"):
@@ -3519,6 +3879,8 @@ def r5(ctx):
     if not loops and not e_bad and not e_und:
         e_und.append("no path reaches a decoding loop")
     _verdict(ctx, "R5", "EXIT", f, t_exit, e_bad, e_und, "under the assumption that the argument is a STRING token every path runs the decoding loop; nothing is returned before it", d.loop)
+    _verdict(ctx, "R5", "API", f, t_type, t_bad, t_und,
+             "no path returns a value for a STRING token before the decoding loop" if not t_seen else f"{t_seen} path(s) return before the decoding loop, each a bytes value", d.loop, nontrivial=False)
 
 
 # ============================================================================================ the STRING terminal
@@ -3680,11 +4042,14 @@ def run(ctx):
         "can match the second half of an escaped backslash: violated); a path on which the value skips the escaper (written as it is or only "
         "decoded ascii / latin-1 / utf-8) must be taken only under conditions that exclude the backslash byte - the encoder's own tests "
         "(`value.isascii()`, `.isprintable()`, `.isalnum()` ..., `<constant> in value`) are data forks whose outcomes are evaluated as "
-        "facts over the set of ASCII byte values a byte of the value may take (lemma L13), never by trying values. Decoder: the body of the decoding loop is walked once over an abstract iterator with symbolic characters; the "
+        "facts over the set of ASCII byte values a byte of the value may take (lemma L13), never by trying values; tests of the length / the first / "
+        "the last character of the text are data forks as well, and a path they select that returns the text without the two delimiters (the value "
+        "itself deciding in-band whether it gets quoted) is violated when a witness composed of the constants those tests name satisfies the path's facts. Decoder: the body of the decoding loop is walked once over an abstract iterator with symbolic characters; the "
         "cases are the literals / table keys the decoder itself compares a character with, plus one 'any other character' case in which "
         "the character stays symbolic (its code is the term ord(c)). On the resulting event traces: the set of escape letters the "
         "decoder acts on and their byte values are compared with the documented table (the 'other' case must drop the pair silently), "
-        "hex escapes check availability before consuming (cursor-offset typestate), consume exactly their digits and append "
+        "hex escapes check availability before consuming (cursor-offset typestate; a next(n) followed at once by a test of the length of what it delivered "
+        "is the same check made after the fact - next() is a slice of the buffer, lemma L15), consume exactly their digits and append "
         "int(<low digit pair>, 16) - or the number parsed from all digits reduced by a constant mask / modulus that provably leaves "
         "exactly the low byte (known-bits lemma L7), or such a code encoded with latin-1 (lemma L12: chr(n).encode(C) is the one byte n for every "
         "n in 0..255 only for latin-1; utf-8 / ascii give several bytes or raise from 0x80 on: violated) -, an ordinary character is appended as ord(c) exactly once (a constant mask is judged by a known-bits "
@@ -3696,7 +4061,8 @@ def run(ctx):
         "own on a path that returns before the loop, are judged against the token structure of a literal (lemma L8: a pattern backslash + X "
         "matches the second half of an escaped backslash followed by a plain X; after backslash backslash -> backslash the produced backslash "
         "is scanned again), with the path's `<constant> in <text>` conditions checked against the witness content; a return that bypasses the "
-        "loop without decoding needs conditions that exclude every escape. The accumulator (R6): the object the decoding loop appends the bytes to (located "
+        "loop without decoding needs conditions that exclude every escape, and whatever is returned before the loop must be a bytes object (a str term over "
+        "the text returned on a path whose conditions admit a literal - e.g. the empty one - is violated: '' != b''). The accumulator (R6): the object the decoding loop appends the bytes to (located "
         "by role) must be created by the call - a display, a constructor call, an immutable constant that `+=` rebinds; when it outlives the call "
         "(a module-level object, an attribute of one, a mutable parameter default) it must be emptied before the loop on every path (dominance) "
         "or in a `finally` covering the loop, otherwise a call that leaves through an explicit raise / return after appending keeps its bytes for "
@@ -3725,6 +4091,10 @@ def run(ctx):
         "or produced by a package function (reported as undecided); re-entrancy / threads",
         "hex digits converted by anything but int(.., 16), a constant table / digit string of the module (one digit or a pair) or the nibble "
         "arithmetic of lemma L9; exceptions of operations kept symbolic (their handlers are not walked)",
+        "encoder paths selected by shape tests other than length / first / last character against constants, or for which no witness made of the "
+        "compared constants exists (reported as undecided); a constant returned for a special shape (e.g. '\"\"' for an empty value) is not judged",
+        "a tentative next(n) whose length test is not the next use of the iterator / output, or a StringIterator.next of another shape than the "
+        "slice `buffer[cursor:cursor+n]` (the unchecked read is then reported as before)",
         "paths that return before the decoding loop with a conversion of an escape-free text (reported as undecided), whole-text rewrites other "
         "than str.replace / literal re.sub of backslash pairs, regex- or callback-based decoders (reported as undecided); that the value "
         "returned after the loop is exactly the bytes of the accumulator is not checked",
@@ -3763,6 +4133,10 @@ def run(ctx):
         "lemma L14 (integers): a < b <=> a + 1 <= b, a >= b <=> not a < b; StringIterator.has_next(n) is `cursor + n <= len(buffer)` as written in the "
         "class (checked on its syntax tree together with: the cursor is only ever set to 0 or advanced, the buffer holds one entry per character "
         "of the constructor argument); next(n) / __next__ advance the cursor by the number of characters they return (iterator protocol, assumed)",
+        "lemma L15 (slicing): len(b[i:i+n]) == min(n, max(0, len(b) - i)) for n >= 0, hence for 1 <= k <= n: len(b[i:i+n]) >= k <=> i + k <= len(b); "
+        "StringIterator.next(n) returns `buffer[cursor:cursor+n]` evaluated before its only cursor store `+= n` (checked on its syntax tree); "
+        "\"\".join of one-character strings has one character per entry",
+        "the literal `\"\"` (empty content) is a STRING token and is what the encoder emits for b''; a str never compares equal to a bytes object",
         "R6: a display, comprehension or call of a constructor / library function yields a new object; an object bound at module level, an attribute "
         "of one and a parameter default live as long as the module; list / bytearray .clear(), `del x[:]` and `x[:] = []` leave the object empty",
     ]
